@@ -2139,6 +2139,23 @@ class Executor:
         for n in c.body:
             if isinstance(n, ast.FunctionDef) and n.name == parts[1]:
                 return n
+        # methods defined under a class-level version test
+        # (`if sys.version_info[0] < 3: ... else: ...`): the branch that runs
+        # under Python 3
+        for n in c.body:
+            if isinstance(n, ast.If) and 'version_info' in ast.dump(n.test):
+                py3 = None
+                t = n.test
+                if isinstance(t, ast.Compare) and len(t.ops) == 1 and \
+                        isinstance(t.comparators[0], ast.Constant) and \
+                        t.comparators[0].value == 3:
+                    if isinstance(t.ops[0], ast.Lt):
+                        py3 = n.orelse
+                    elif isinstance(t.ops[0], ast.GtE):
+                        py3 = n.body
+                for m in py3 or []:
+                    if isinstance(m, ast.FunctionDef) and m.name == parts[1]:
+                        return m
         raise KeyError(fname)
 
 
